@@ -321,8 +321,53 @@ def _wf_k(u, v):
     return u.grad.dot(v.grad)
 
 
+def _wf_c(u, v):
+    return 0.6 * u.dot(v)
+
+
+def _wf_m(u, v):
+    return 0.9 * u.dot(v)
+
+
+class WeakFormParabolic(WeakFormScn):
+    """the same user forms with a capacity form, run with the parabolic scheme (u and its rate are the state)"""
+    name = "weakforms_parabolic"
+    dynamic = True
+    results = ["u", "v"]
+
+    def build(self, mesh):
+        from EasyFEA import Models, Simulations
+        from EasyFEA.FEM import BiLinearForm, Field
+
+        field = Field(mesh.groupElem, 1)
+        return Simulations.WeakForms(mesh, Models.WeakForms(field, computeK=BiLinearForm(_wf_k), computeC=BiLinearForm(_wf_c), computeM=BiLinearForm(_wf_m)))
+
+    def setup(self, simu):
+        simu.Solver_Set_Parabolic_Algorithm(0.1, 0.5)
+
+    def fields(self, simu):
+        pt = simu.problemType
+        return {f"{pt}.u": np.array(simu._Get_u_n(pt), dtype=float), f"{pt}.v": np.array(simu._Get_v_n(pt), dtype=float)}
+
+    def named(self, simu):
+        return {nm: np.atleast_1d(np.array(simu.Result(nm), dtype=float)) for nm in self.results}
+
+
+class WeakFormHyperbolic(WeakFormParabolic):
+    name = "weakforms_hyperbolic"
+    results = ["u", "v", "a"]
+
+    def setup(self, simu):
+        simu.Solver_Set_Hyperbolic_Algorithm(0.1)
+
+    def fields(self, simu):
+        pt = simu.problemType
+        return {f"{pt}.u": np.array(simu._Get_u_n(pt), dtype=float), f"{pt}.v": np.array(simu._Get_v_n(pt), dtype=float),
+                f"{pt}.a": np.array(simu._Get_a_n(pt), dtype=float)}
+
+
 SCENARIOS = {s.name: s for s in (ElasticStatic, ElasticNewmark, ThermalStatic, ThermalParabolic, BeamStatic, BeamNewmark, PhaseFieldHistory,
-                                 PhaseFieldHistoryDamage, InElasticScn, HyperScn, WeakFormScn)}
+                                 PhaseFieldHistoryDamage, InElasticScn, HyperScn, WeakFormScn, WeakFormParabolic, WeakFormHyperbolic)}
 
 
 MESH_OPS = ["save", "translate", "rotate", "symmetry", "settag", "partition"]
@@ -428,7 +473,7 @@ def cases(tier, seed):
 def describe(tier, seed):
     depth = 2 if tier == "quick" else 3
     return {
-        "rule": f"E2 unmerged: 10 simulation scenarios x 6 prefixes (static iteration followed by a dynamic one / iteration 0 = initial state saved before any solve / iteration 0 kept in memory / written to disk / two stored iterations / two iterations on two meshes) x every sequence of the {len(OPS)} operations "
+        "rule": f"E2 unmerged: {len(SCENARIOS)} simulation scenarios (elastic static / Newmark, thermal static / parabolic, beam static / Newmark, phase-field History / HistoryDamage, inelastic, hyperelastic, user weak forms static / parabolic / hyperbolic) x 6 prefixes (static iteration followed by a dynamic one / iteration 0 = initial state saved before any solve / iteration 0 kept in memory / written to disk / two stored iterations / two iterations on two meshes) x every sequence of the {len(OPS)} operations "
                 f"of length 1..{depth}; after every operation: every stored iteration still equals the snapshot taken when it was saved, reading a stored iteration "
                 "leaves the live state and the count unchanged, a restore brings back the fields, mesh and internal variables of the snapshot, "
                 "Result(name, iter=0) equals the value recorded at save time, Load_Simu(Save()) has the same mesh, tags, count and stored iterations. "
@@ -605,7 +650,7 @@ def _run(case, scn, tmp):
             s = snaps[it]
             for name in s["named"]:
                 try:
-                    r = np.atleast_1d(np.array(simu.Result(name, nodeValues=(name in ("damage", "thermal", "thermalDot", "u", "displacement_norm", "Wdef", "Psi_Crack")), iter=it), dtype=float))
+                    r = np.atleast_1d(np.array(simu.Result(name, nodeValues=(name in ("damage", "thermal", "thermalDot", "u", "v", "a", "displacement_norm", "Wdef", "Psi_Crack")), iter=it), dtype=float))
                 except Exception as err:
                     out.append(viol("result_iter_raises", f"after {done}: Result({name!r}, iter={it}) raised {type(err).__name__}: {err}", result=name, **kk))
                     continue
